@@ -12,5 +12,21 @@ rsync -a --exclude .git --exclude '*_test.go' "$REPO"/ "$SCR/src"/ || exit 2
 mkdir -p "$SCR/src/vsim" || exit 2
 rsync -a --exclude go.mod --exclude go.sum "$VERIF/sim"/ "$SCR/src/vsim"/ || exit 2
 cd "$SCR/src" || exit 2
+# The lock library (gofrs/flock) is third-party code the engine's mutual exclusion rests on: a copy of the version
+# the repository requires becomes a package of the scratch module with the same seams (os, sync, x/sys/unix
+# rebound), so that interleavings inside it - between opening the lock file and locking it - are scheduled too.
+# vrewrite has already pointed the engine's import of github.com/gofrs/flock at this copy.
+FLOCKDIR=$(go list -m -f '{{.Dir}}' github.com/gofrs/flock 2>/dev/null)
+if [ -z "$FLOCKDIR" ] || [ ! -f "$FLOCKDIR/flock_unix.go" ]; then echo "mkscratch: cannot locate gofrs/flock in the module cache"; exit 2; fi
+mkdir -p vsim/flockcopy || exit 2
+for f in flock.go flock_unix.go; do
+  sed -e 's#^\t"os"$#\t"github.com/XiXi-2024/xixi-kv/vsim/shim/os"#' \
+      -e 's#^\t"sync"$#\t"github.com/XiXi-2024/xixi-kv/vsim/shim/sync"#' \
+      -e 's#^\t"golang.org/x/sys/unix"$#\t"github.com/XiXi-2024/xixi-kv/vsim/shim/unix"#' \
+      "$FLOCKDIR/$f" > "vsim/flockcopy/$f" || exit 2
+done
+if ! grep -q 'vsim/shim/os' vsim/flockcopy/flock.go || ! grep -q 'vsim/shim/unix' vsim/flockcopy/flock_unix.go; then
+  echo "mkscratch: the lock library does not have the expected imports (version changed?)"; exit 2
+fi
 go mod edit -require github.com/anishathalye/porcupine@v1.3.0 || exit 2
 exit 0
